@@ -31,8 +31,10 @@ static void on_remesh(int kind, int stage, cell*, unsigned, unsigned, unsigned) 
 }
 static void on_division(int, const cell*, const cell*, const cell*) { if (g_cnt) g_cnt->divisions++; }
 static void on_pair(const cell*, const node*, const cell*, const face*) { if (g_cnt) g_cnt->contact_pairs++; }
+static double g_limit = 1e300;
 static void on_phase(int tag, const std::vector<cell_ptr>* lst) {
     if (!g_cnt || tag < 0 || tag > 10) return; g_cnt->phases[tag]++;
+    if (tag == 8 && tis::blown_up(*lst, g_limit)) throw tis::unstable_run();
     if (tag == 9) g_cnt->last_count = lst->size();
     if (tag == 10) { if (lst->size() < g_cnt->last_count) g_cnt->removals += (long)(g_cnt->last_count - lst->size()); g_cnt->max_cells = std::max<long>(g_cnt->max_cells, (long)lst->size()); g_cnt->min_cells = std::min<long>(g_cnt->min_cells, (long)lst->size()); }
 }
@@ -66,7 +68,7 @@ static std::string run_one(const Args& a, long i) {
     auto& S = verif::get(); S.rng_seed = rng_seed; S.remesh_event = on_remesh; S.division_event = on_division; S.contact_pair = on_pair; S.phase = on_phase;
     std::string out = "simrun_out_" + std::to_string(i) + "_" + std::to_string((long)getpid());
     s.P.output_folder_path_ = out;
-    std::string ended = "completed"; long iters = 0, cells0 = 0, cells1 = 0; std::string what;
+    std::string ended = "completed"; long iters = 0, cells0 = 0, cells1 = 0; std::string what; g_limit = tis::extent_limit(s);
     try {
         std::vector<cell_ptr> cells;
         if (s.P.perform_initial_triangulation_) {     // through the files, as the product does
@@ -80,6 +82,7 @@ static std::string run_one(const Args& a, long i) {
         cells1 = (long)sv.cells().size();
         for (auto& cp : sv.cells()) cp->rebase();
     } catch (const std::exception& e) { ended = "exception"; what = e.what(); }
+    catch (const tis::unstable_run&) { ended = "unstable"; }
     std::error_code ec; std::filesystem::remove_all(out, ec); std::filesystem::remove_all(out + "_in", ec);
     g_cnt = nullptr;
     c.nontrivial = iters >= 10;
